@@ -76,7 +76,7 @@ Definition error_is_accurate (errors : Z) (fp : extfloat) : outcome bool :=
     mask <- lower_n_mask b maskbits ;;
     let extra := Z.land (mant fp) mask in
     halfway <- lower_n_halfway b maskbits ;;
-    let cmp1 := u64_wrapping_sub halfway errors <? extra in
+    let cmp1 := halfway <? Z.min u64_max (extra + errors) in
     let cmp2 := extra <? u64_wrapping_add halfway errors in
     Ok (negb (cmp1 && cmp2)).
 
@@ -95,7 +95,10 @@ Definition bellerophon (n : number) : outcome extfloat :=
     if exponent <? 0 then Ok bfp_zero
     else if zlen (BELL_LARGE BT) <=? as_usize large_index then Ok bfp_inf
     else
-      let errors0 := if many n then error_halfscale else 0 in
+      (* `errors += error_scale() << (lz + 1).min(24)` when digits were dropped *)
+      errors0 <- (if many n then
+                    e0 <- u32_shl b error_scale (Z.min (lz64 (nmant n) + 1) 24) ;; u32_add b 0 e0
+                  else Ok 0) ;;
       si <- get_small_int (as_usize small_index) ;;
       let '(mm, o) := u64_overflowing_mul (nmant n) si in
       '(fp2, errors1) <-
